@@ -81,7 +81,15 @@ static void on_sched_fail(int kind, const char *detail) {
   if (g_ctx.hang_cb) { g_ctx.hang_cb(kind, detail); _exit(13); }
   const Scn *s = g_ctx.scn;
   std::string cls = std::string("hang-") + failname(kind) + "@" + g_ctx.opname;
-  if (g_ctx.hang == HANG_SKIP) {
+  if (g_ctx.hang == HANG_MONITOR_ONLY) {
+    const simsched::SchedResult &pr = simsched::current_partial();
+    if (!pr.mon.empty()) {
+      std::vector<int> partial = simsched::current_decisions();
+      emit_violation(*s, "monitor-" + pr.mon[0].cls + "@" + g_ctx.opname, "", "step " + std::to_string(pr.mon[0].step) + ": " + pr.mon[0].detail + " (the operation then did not return: " + failname(kind) + ")", &partial, g_ctx.slot);
+      _exit(10);
+    }
+  }
+  if (g_ctx.hang == HANG_SKIP || g_ctx.hang == HANG_MONITOR_ONLY) {
     if (g_child_fd >= 0) { std::string m = "S\nbaseline-hang\n"; (void)!write(g_child_fd, m.data(), m.size()); _exit(12); }
     fprintf(rep, "H %ld skip baseline-%s detail=%s\n", s ? s->index : -1, cls.c_str(), sanitize(detail).c_str());
     fflush(rep);
